@@ -209,12 +209,18 @@ static inline int skv_main(int argc, char **argv, Harness &h) {
     }
     if (kv.count("digest")) st.digest_file = fopen(kv["digest"].c_str(), "wb");
     long dump_index = kv.count("dump-index") ? atol(kv["dump-index"].c_str()) : -1;
+    std::string corpus_dir = kv.count("corpus") ? kv["corpus"] : "";
+    long corpus_n = kv.count("corpus-n") ? atol(kv["corpus-n"].c_str()) : 200;
     std::string last_fail, last_msg;
     auto gen = h.gen();
     bool ok = rc::check([&]() {
         Program p = *gen;
         g_current_case = ser(p);
         crash_note_case();
+        if (!corpus_dir.empty() && (long)st.evaluations < corpus_n && !st.shrinking) {
+            char nm[64]; snprintf(nm, sizeof nm, "/seed-%016llx", (unsigned long long)fnv64(g_current_case));
+            write_file(corpus_dir + nm, g_current_case);
+        }
         if (dump_index >= 0 && (long)st.evaluations == dump_index && kv.count("dump-path")) write_file(kv["dump-path"], g_current_case);
         std::string r = h.run(p, st);
         if (!r.empty()) {
